@@ -1,0 +1,32 @@
+//go:build verif
+// +build verif
+
+// Accessors used only by the external verification harness (build tag
+// "verif"). They expose values that already exist; nothing is computed or
+// changed here, and without the tag this file is not compiled.
+
+package bluge
+
+import "github.com/blugelabs/bluge/index"
+
+// VerifIndexConfig returns the index configuration wrapped by this Config.
+func (config Config) VerifIndexConfig() index.Config {
+	return config.indexConfig
+}
+
+// VerifWithIndexConfig returns a copy of this Config using the given index
+// configuration.
+func (config Config) VerifWithIndexConfig(ic index.Config) Config {
+	config.indexConfig = ic
+	return config
+}
+
+// VerifSnapshot returns the index snapshot this Reader reads from.
+func (r *Reader) VerifSnapshot() *index.Snapshot {
+	return r.reader
+}
+
+// VerifIndexWriter returns the index writer behind this Writer.
+func (w *Writer) VerifIndexWriter() *index.Writer {
+	return w.chill
+}
